@@ -88,7 +88,16 @@ Record SMInv (ks : list N) (np : N -> list N) (en : list (N * N)) (s : sm) (f : 
   inv_enemies : forall a b, enemy_rel (sm_enemies s) a b <->
       exists x y, (In (x, y) en \/ In (y, x) en) /\ f x = a /\ f y = b;
   (* no group contains an enemy pair *)
-  inv_no_enemy_inside : forall x y, In (x, y) en -> f x <> f y
+  inv_no_enemy_inside : forall x y, In (x, y) en -> f x <> f y;
+  (* representation facts: the order has no duplicates, the maps have unique keys, stored
+     predecessor lists never point into their own group, enemy sets are sorted *)
+  inv_nodup : NoDup (sm_order s);
+  inv_preds_keys : NoDup (map fst (sm_preds s));
+  inv_idx_keys : NoDup (map fst (sm_idx s));
+  inv_len_keys : NoDup (map fst (sm_len s));
+  inv_enemies_keys : NoDup (map fst (sm_enemies s));
+  inv_enemies_sorted : forall a es, alookup a (sm_enemies s) = Some es -> StronglySorted N.lt es;
+  inv_preds_noself : forall r ps q, alookup r (sm_preds s) = Some ps -> In q ps -> f q <> r
 }.
 
 Lemma SMInv_enemies_sym ks np en s f a b :
@@ -199,6 +208,49 @@ Proof.
   rewrite E1. rewrite <- !app_assoc. cbn. reflexivity.
 Qed.
 
+Lemma In_map_fst_aset {A} k (v : A) m x :
+  In x (map fst (aset k v m)) -> x = k \/ In x (map fst m).
+Proof.
+  induction m as [|[k0 v0] r IH]; cbn; intro Hx; [intuition|].
+  destruct (N.eqb k k0) eqn:E; cbn in Hx.
+  - apply N.eqb_eq in E. subst. intuition.
+  - destruct Hx as [<-|Hx]; [auto|]. destruct (IH Hx); auto.
+Qed.
+
+Lemma map_fst_aset {A} k (v : A) m :
+  NoDup (map fst m) -> NoDup (map fst (aset k v m)).
+Proof.
+  induction m as [|[k0 v0] r IH]; cbn; intro ND; [constructor; [intros []|constructor]|].
+  inversion ND; subst. destruct (N.eqb k k0) eqn:E; cbn.
+  - apply N.eqb_eq in E. subst. constructor; assumption.
+  - apply N.eqb_neq in E. constructor; [|auto]. intro Hx.
+    destruct (In_map_fst_aset _ _ _ _ Hx) as [->|H']; [congruence|contradiction].
+Qed.
+
+Lemma map_fst_enumerate (o : list N) j : map fst (enumerate_from j o) = o.
+Proof. revert j. induction o as [|a o IH]; intro j; cbn; [reflexivity|rewrite IH; reflexivity]. Qed.
+
+Lemma map_fst_map_key {A} (g : N -> A) ks : map fst (map (fun k => (k, g k)) ks) = ks.
+Proof. induction ks as [|a ks IH]; cbn; [reflexivity|rewrite IH; reflexivity]. Qed.
+
+Definition enemies_wf (e : list (N * list N)) : Prop :=
+  NoDup (map fst e) /\ forall a es, alookup a e = Some es -> StronglySorted N.lt es.
+
+Lemma eadd_wf a b e : enemies_wf e -> enemies_wf (eadd a b e).
+Proof.
+  intros (ND & S). split; [apply map_fst_aset; exact ND|].
+  intros x es. unfold eadd. rewrite alookup_aset. destruct (N.eqb x a) eqn:E.
+  - intro H. inversion H. apply sinsert_sorted.
+    destruct (alookup a e) as [l|] eqn:L; [exact (S a l L)|constructor].
+  - apply S.
+Qed.
+
+Lemma enemies_new_wf : forall ps e0 e, enemies_wf e0 -> enemies_new ps e0 = ROk e -> enemies_wf e.
+Proof.
+  induction ps as [|[a b] ps IH]; cbn; intros e0 e W H; [inversion H; subst; exact W|].
+  destruct (N.eqb a b); [discriminate|]. eapply IH; [|exact H]. apply eadd_wf, eadd_wf, W.
+Qed.
+
 Theorem sm_new_inv keys np en s :
   (forall x p, In x keys -> In p (np x) -> In p keys) ->
   sm_new keys np en = NewOk s ->
@@ -255,6 +307,16 @@ Proof.
     + intros [(es & H0 & _)|H0]; [discriminate|]. exists a, b. auto.
     + intros (x & y & Hxy & <- & <-). right. exact Hxy.
   - intros x y Hxy. apply Ene. exact Hxy.
+  - exact NDo.
+  - unfold sp. rewrite map_fst_map_key. exact NDk.
+  - rewrite map_fst_enumerate. exact NDo.
+  - rewrite (map_fst_map_key (fun _ => 1)). exact NDo.
+  - apply (enemies_new_wf en [] e); [split; [constructor|intros a es H0; discriminate]|exact E].
+  - apply (enemies_new_wf en [] e); [split; [constructor|intros a es H0; discriminate]|exact E].
+  - intros r ps q Hr Hq Eq. unfold sp in Hr. apply alookup_map_some in Hr. destruct Hr as (Hk & ->).
+    subst q. apply Hin in Hk. apply in_split in Hk. destruct Hk as (l1 & l2 & Eo).
+    pose proof (Tnp l1 r l2 Eo r Hq) as Hl. rewrite Eo in NDo. apply NoDup_remove_2 in NDo.
+    apply NDo. apply in_or_app. left. exact Hl.
 Qed.
 
 (* new() returning a cycle: a genuine cycle of the node-level graph, inside the keys *)
@@ -428,18 +490,9 @@ Proof.
     destruct (alookup (f u0) (sm_idx s)) as [iu|]; [|discriminate]. cbn [rbind] in H.
     destruct (alookup (f v0) (sm_idx s)) as [iv|]; [|discriminate]. cbn [rbind] in H.
     assert (G : forall u v, ((u = f u0 /\ v = f v0) \/ (u = f v0 /\ v = f u0)) ->
-      (u_idx <- match alookup u (sm_idx s) with Some v1 => ROk v1 | None => RPanic end ;;
-       u_len <- match alookup u (sm_len s) with Some v1 => ROk v1 | None => RPanic end ;;
-       v_idx <- match alookup v (sm_idx s) with Some v1 => ROk v1 | None => RPanic end ;;
-       v_len <- match alookup v (sm_len s) with Some v1 => ROk v1 | None => RPanic end ;;
-       (if Nat.ltb (length (sm_order s)) (u_idx + u_len) || Nat.ltb (length (sm_order s)) (v_idx + v_len)
-        then RPanic
-        else ' (found, uf3) <- cyc_loop s u v u_idx (v_idx + v_len) (S (length (sm_idx s))) [v] [v] uf2 ;;
-             (if (found : bool) then ROk (with_uf s uf3, false)
-              else sm_merge_phase s u v u_idx (v_idx + v_len) (slice (sm_order s) u_idx u_len)
-                                  (slice (sm_order s) v_idx v_len) uf3))) = ROk (s', false) ->
+      sm_try_merge_ordered s u v uf2 = ROk (s', false) ->
       would_cycle f np ks (f u0) (f v0) /\ SMInv ks np en s' f).
-    { intros u v Huv H0.
+    { intros u v Huv H0. unfold sm_try_merge_ordered, aget in H0.
       assert (Fv : f v = v) by (destruct Huv as [(_ & ->)|(_ & ->)]; eapply UFInv_idem; exact HU2).
       assert (Nuv : u <> v) by (destruct Huv as [(-> & ->)|(-> & ->)]; congruence).
       destruct (alookup u (sm_idx s)) as [u_idx|]; [|discriminate]. cbn [rbind] in H0.
